@@ -33,13 +33,18 @@ for tag, callee in (('forward', 'TLA_safe_decrement_forward'), ('bidir', 'TLA_sa
 # ---- traversal over a nested structure: outer positions 0..NO (NO = end), inner positions 0..LEN[o] (LEN[o] = end) ------------------
 TP = ["""
 typedef uint64_t Iter;
+#ifndef MAXO
 #define MAXO 6u                    /* number of outer containers: configuration bound for the model of the nested structure */
+#endif
+#ifndef MAXLEN
+#define MAXLEN 8u                  /* elements per inner container */
+#endif
 unsigned NO; unsigned LEN[MAXO];   /* the nested structure: NO inner containers, LEN[o] elements in container o (any may be empty) */
 struct TLI { Iter outer; Iter inner; };      /* m_outer, base_reference(); m_outer_begin = 0, m_outer_end = NO */
 static inline Iter inner_begin(Iter o) { __CPROVER_assert(o < NO, "m_inner_begin_fn(*m_outer): m_outer is dereferenceable (not the outer end)"); return 0; }
 static inline Iter inner_end(Iter o) { __CPROVER_assert(o < NO, "m_inner_end_fn(*m_outer): m_outer is dereferenceable (not the outer end)"); return LEN[o]; }
 unsigned g_q;                      /* ghost probe outer position */
-#define SHAPE (NO <= MAXO && __CPROVER_forall { unsigned q_; (q_ < MAXO) ==> LEN[q_] <= 8 })
+#define SHAPE (NO <= MAXO && __CPROVER_forall { unsigned q_; (q_ < MAXO) ==> LEN[q_] <= MAXLEN })
 /* a position ON an element */
 #define ON_ELEM(it) ((it)->outer < NO && (it)->inner < LEN[(it)->outer])
 """]
@@ -94,3 +99,33 @@ __CPROVER_assigns(self->outer, self->inner)""",
     prelude=TP + ['unsigned g_first;   /* ghost: a non-empty container before the position */\n'], lower=TL_COMMON, inline=['TLA_safe_decrement_bidir', 'TLA_safe_decrement_bidir_top', 'TLA_seek_backward'],
     fallback_unwind=8, no_flags=['--conversion-check'], inst='bidirectional iterators; nested structure of <= 6 inner containers of <= 8 elements',
     says='operator--: from the end or an element that is not the first one to its predecessor in the flattened sequence (empty inner containers are skipped); the code\'s own assertions (!too_far) hold'))
+
+# ---- random-access jumps: it -= n -----------------------------------------------------------------------------------------
+FLATP = """
+/* number of elements before container o / flattened index of a position (constant-bound sums over the <= 6 containers) */
+#define PRE(o) ((uint64_t)((o) > 0 ? LEN[0] : 0) + ((o) > 1 ? LEN[1] : 0) + ((o) > 2 ? LEN[2] : 0) + ((o) > 3 ? LEN[3] : 0) + ((o) > 4 ? LEN[4] : 0) + ((o) > 5 ? LEN[5] : 0))
+#define FLAT(it) (PRE((it)->outer) + ((it)->outer < NO ? (it)->inner : 0))
+#define CANON(it) (((it)->outer == NO) || ON_ELEM(it))      /* the end, or on an element */
+"""
+UNITS.append(Unit(
+    name='TLA_jump_backward', kind='bounded', unwind=16, dfcc=False, bound_desc='a smaller model of the nested structure (<= 4 inner containers of <= 3 elements, so n <= 12; the 6 x 8 model did not finish in 30 minutes): every loop unwound completely, all structures, positions and distances',
+    src=TLA, within=W, anchor=r'void jump_backward\(DiffType n\)', proto='void TLA_jump_backward(struct TLI* self, int64_t n)', contract='',
+    defines=['MAXO=4u', 'MAXLEN=3u'], prelude=TP + [FLATP.replace(' + ((o) > 4 ? LEN[4] : 0) + ((o) > 5 ? LEN[5] : 0)', ''), 'unsigned nondet_unsigned(void); uint64_t nondet_u64(void); int64_t nondet_i64(void);\nvoid TLA_jump_backward(struct TLI* self, int64_t n);\n'], lower=TL_COMMON + [
+        rx(r'assert\(n >= 0\);', '__CPROVER_assert(n >= 0, "code-assert: n >= 0");', 1, 1), rx(r'difference_type k =\s*std::distance\(inner_begin\(self->outer\), self->inner\)( \+ 1)?;', lambda m: 'int64_t k = (int64_t)(self->inner - inner_begin(self->outer))%s;' % (m.group(1) or ''), 1, 1),
+        rx(r'std::advance\(self->inner, -(\w+)\);', r'self->inner -= (Iter)\1;', 1), rx(r'(?<![\w.>])seek_backward\(\);', 'TLA_seek_backward(self);', 0), rx(r'(?<![\w.>])decrement\(\);', 'TLA_decrement_nc(self);', 1)],
+    post_pre='void TLA_decrement_nc(struct TLI* self);\nvoid TLA_seek_backward(struct TLI* self);\n', inline=['TLA_safe_decrement_bidir', 'TLA_safe_decrement_bidir_top', 'TLA_seek_backward', 'TLA_decrement_nc'],
+    harness="""
+  NO = nondet_unsigned(); __CPROVER_assume(NO <= MAXO);
+  for (unsigned q = 0; q < MAXO; ++q) { LEN[q] = nondet_unsigned(); __CPROVER_assume(LEN[q] <= MAXLEN); }
+  struct TLI it; it.outer = nondet_u64(); it.inner = nondet_u64();
+  __CPROVER_assume(CANON(&it) && (it.outer == NO ==> it.inner <= MAXLEN));
+  int64_t n = nondet_i64(); __CPROVER_assume(n >= 0 && (uint64_t)n <= FLAT(&it));
+  const uint64_t f0 = FLAT(&it); const struct TLI old = it;
+  TLA_jump_backward(&it, n);
+  if (n == 0) __CPROVER_assert(it.outer == old.outer && it.inner == old.inner, "it -= 0 moves nothing");
+  else { __CPROVER_assert(ON_ELEM(&it), "it -= n (n >= 1) lands on an element"); __CPROVER_assert(FLAT(&it) == f0 - (uint64_t)n, "it -= n lands exactly n positions earlier in the flattened sequence"); }
+""",
+    reach=True, no_flags=['--conversion-check'], timeout=1800, reach_timeout=600, inst='random-access inner iterators',
+    replay=dict(prog='twolevel_jump_back', args=[], lib=False),
+    says='jump_backward (operator-= on a random-access two-level iterator): lands exactly n positions earlier in the flattened sequence, across any number of (possibly empty) inner containers -- exhaustive over the model of the nested structure (complete unwinding)'))
+UNITS.append(Unit(name='TLA_decrement_nc', kind='assumed', src=TLA, within=W, anchor=r'void decrement\(\)', proto='void TLA_decrement_nc(struct TLI* self)', contract='', lower=TL_COMMON))
